@@ -423,7 +423,37 @@ def check_c12(tier, seed):
 # ----------------------------------------------------------------------------------------------
 
 HOSTILE = ['Copyright (c) test', 'line1\nline2\n\n  indented', 'a\rb', 'x\x0by\x0cz', 'u v w\x85q',
-           '*/ int evil; /*', '#include <evil>\n};', '\n\n', 'tab\there \\', '  leading and trailing  \n', '\x1c\x1d\x1e']
+           '*/ int evil; /*', '#include <evil>\n};', '\n\n', 'tab\there \\', '  leading and trailing  \n', '\x1c\x1d\x1e',
+           # text that already looks like a comment, with a line separator other than LF inside
+           '// pre-commented\u2028#define EVIL 1', '// a\x0cint evil;', '//x\rint evil;\n// y', '* bullet\n* list', '/* c */ int x;',
+           '// only comment lines\n// here']
+
+
+def c19_support_header_part(chk):
+    """support_files.generate_cpp_code: the header text of a support file (a TextBlock or already a Comment) is user text
+    rendered as a comment: whatever it is, the non-comment lines of the generated file stay those of the baseline."""
+    core.repo_guard()
+    from dznpy import support_files  # pylint: disable=import-outside-toplevel
+    from dznpy.cpp_gen import Comment  # pylint: disable=import-outside-toplevel
+    from dznpy.text_gen import TextBlock  # pylint: disable=import-outside-toplevel
+
+    def code_lines(header):
+        cfg = support_files.SupportFileCfg(header=header, body=TextBlock(['int body_line;']))
+        text = str(support_files.generate_cpp_code(cfg))
+        return [ln for ln in text.split('\n') if ln.strip() and not ln.lstrip().startswith('//')]
+    base = code_lines(TextBlock('plain'))
+    for text in HOSTILE:
+        for kind, make in (('TextBlock', TextBlock), ('Comment', Comment), ('TextBlock of Comment', lambda t: TextBlock(Comment(t)))):
+            chk.count(('support-header', kind, text))
+            try:
+                got = code_lines(make(text))
+            except Exception as exc:  # pylint: disable=broad-except
+                chk.violation(f'generate_cpp_code with a {kind} header raised {type(exc).__name__}: {exc}', {'header': text, 'kind': kind})
+                continue
+            if got != base:
+                extra = [ln for ln in got if ln not in base][:3]
+                chk.violation(f'support file header given as {kind}: header text became code: {extra}',
+                              {'header': text, 'kind': kind, 'code_lines': got[:12], 'baseline': base})
 
 
 def c19_build_part(chk, tier, seed):
@@ -434,7 +464,10 @@ def c19_build_part(chk, tier, seed):
         for name in ('sts', 'mts', 'mc', 'prefixed'):
             variants = [(c, k) for c in HOSTILE for k in [None] + HOSTILE]
             rng.shuffle(variants)
-            for cpy, crt in [(HOSTILE[0], None)] + variants[:12 if tier == 'quick' else 60]:
+            nho = len(HOSTILE)
+            # every hostile text is used as copyright and as creator in every group; random pairs on top
+            fixed = [(HOSTILE[i], HOSTILE[(i * 5 + 2) % nho]) for i in range(nho)]
+            for cpy, crt in [(HOSTILE[0], None)] + fixed + variants[:6 if tier == 'quick' else 60]:
                 jobs.append({'doc': doc, 'desc': dict(named_cfg(name, doc), copyright=cpy, creator=crt), 'order': None})
     events = run_children([({'seed': 0, 'pid': 'c19'}, jobs)])
     by_ckey = {}
